@@ -5,6 +5,8 @@
 //! input line:  <framing>|<units>|<auth>|<frames>
 //!   framing : tcp | rtu
 //!   units   : - | u;u;...      u = uid:m:c:rex:wex:coils:discrete:holding:input   (given in ascending uid order)
+//!             or u = uid:=owner : unit id uid holds the same handler object as unit id owner (log entries
+//!             of a handler object carry the owner's unit id)
 //!             lists are `-` or comma separated dot-tuples:
 //!             rex  kind.addr.code   a read (kind 0 coil,1 discrete,2 holding,3 input) of addr raises code
 //!             wex  kind.addr.code   a write (kind 0 single coil,1 single register,2 coils,3 registers)
@@ -18,7 +20,10 @@
 //!   frames  : - | comma separated hex ADUs; each is handed to the reader as one chunk and the task
 //!             is run until it is parked before the next is sent. An entry `@min` / `@max` instead
 //!             sends ServerCommand::ChangeDecoding through the session's command channel (and
-//!             produces no reply entry).
+//!             produces no reply entry). `@shutdown` sends ServerCommand::Shutdown, `@close` drops the
+//!             only ServerHandle (the command channel closes). `@block` makes every write to the
+//!             transport pend from now on, `@unblock` lets the pending and all later writes complete
+//!             (what is written then is attributed to the last frame sent while blocked).
 //! argument `--decode min|max` (default min) sets the initial decode level: min = nothing,
 //! max = (DataValues, Payload, Data). A tracing subscriber that formats every event into a sink is
 //! installed once per process so that the Display / Loggable code really runs.
@@ -31,8 +36,13 @@
 //!             iterator's addresses are consecutive (bits as 0/1 chars, registers as 4 hex digits),
 //!             otherwise !addr=value+...
 //!             au.<kind 0..7>.<unit>.(r<start>.<count>|i<index>).<rolehex>
-//!   end     : open | PANIC | the RequestError variant name that ended the session
+//!   end     : open | blocked (parked in a reply write that pends) | PANIC | the RequestError variant name
+//!             that ended the session
+use std::pin::Pin;
 use std::sync::{Arc, Mutex};
+use std::task::{Context, Poll, Waker};
+
+use tokio::io::{AsyncRead, AsyncWrite, ReadBuf};
 
 use rodbus::server::{
     Authorization, AuthorizationHandler, ReadOnlyAuthorizationHandler, RequestHandler, ServerHandlerMap, WriteCoils,
@@ -46,6 +56,43 @@ use crate::util::{hex, unhex};
 use crate::wire::{settle, Wire};
 
 pub type Log = Arc<Mutex<Vec<String>>>;
+
+/// the scripted wire with a gate on its write side: while `blocked`, writes pend
+#[derive(Default)]
+struct GateState {
+    blocked: bool,
+    pending: bool,
+    waker: Option<Waker>,
+}
+struct Gate {
+    wire: Wire,
+    st: Arc<Mutex<GateState>>,
+}
+impl AsyncRead for Gate {
+    fn poll_read(mut self: Pin<&mut Self>, cx: &mut Context<'_>, buf: &mut ReadBuf<'_>) -> Poll<std::io::Result<()>> {
+        Pin::new(&mut self.wire).poll_read(cx, buf)
+    }
+}
+impl AsyncWrite for Gate {
+    fn poll_write(mut self: Pin<&mut Self>, cx: &mut Context<'_>, b: &[u8]) -> Poll<std::io::Result<usize>> {
+        {
+            let mut g = self.st.lock().unwrap();
+            if g.blocked {
+                g.pending = true;
+                g.waker = Some(cx.waker().clone());
+                return Poll::Pending;
+            }
+            g.pending = false;
+        }
+        Pin::new(&mut self.wire).poll_write(cx, b)
+    }
+    fn poll_flush(self: Pin<&mut Self>, _cx: &mut Context<'_>) -> Poll<std::io::Result<()>> {
+        Poll::Ready(Ok(()))
+    }
+    fn poll_shutdown(self: Pin<&mut Self>, _cx: &mut Context<'_>) -> Poll<std::io::Result<()>> {
+        Poll::Ready(Ok(()))
+    }
+}
 
 pub struct Handler {
     unit: u8,
@@ -184,17 +231,17 @@ impl RequestHandler for Handler {
 }
 
 /// a handler that only has the trait's default method bodies
-struct DefaultAuth;
+pub struct DefaultAuth;
 impl AuthorizationHandler for DefaultAuth {}
 
-enum Policy {
+pub enum Policy {
     Inner(Arc<dyn AuthorizationHandler>),
     Hash(u64, u64),
 }
 
-struct LoggedAuth {
-    policy: Policy,
-    log: Log,
+pub struct LoggedAuth {
+    pub policy: Policy,
+    pub log: Log,
 }
 
 impl LoggedAuth {
@@ -284,11 +331,25 @@ pub fn parse_unit(s: &str, log: &Log) -> (u8, Handler) {
 pub fn parse_units(field: &str, log: &Log) -> ServerHandlerMap<Handler> {
     let mut map: ServerHandlerMap<Handler> = ServerHandlerMap::new();
     if field != "-" {
-        // inserted in reverse, so that the order the session task visits them in (BTreeMap: ascending
-        // unit id) differs from the insertion order
+        // owners first, inserted in reverse, so that the order the session task visits them in
+        // (BTreeMap: ascending unit id) differs from the insertion order
+        let mut owners: Vec<(u8, rodbus::server::ServerHandlerType<Handler>)> = Vec::new();
         for u in field.split(';').rev() {
-            let (id, h) = parse_unit(u, log);
-            map.add(UnitId::new(id), h.wrap());
+            if !u.contains(":=") {
+                let (id, h) = parse_unit(u, log);
+                let h = h.wrap();
+                owners.push((id, h.clone()));
+                map.add(UnitId::new(id), h);
+            }
+        }
+        // `uid:=owner`: this unit id holds the SAME handler object as unit id `owner`
+        for u in field.split(';') {
+            if let Some((id, owner)) = u.split_once(":=") {
+                let id: u8 = id.parse().expect("unit id");
+                let owner: u8 = owner.parse().expect("owner unit id");
+                let h = owners.iter().find(|(o, _)| *o == owner).expect("owner must be configured").1.clone();
+                map.add(UnitId::new(id), h);
+            }
         }
     }
     map
@@ -363,24 +424,64 @@ fn run_case(line: &str, decode: DecodeLevel) -> String {
     let rt = tokio::runtime::Builder::new_current_thread().enable_time().start_paused(true).build().unwrap();
     let (replies, end) = rt.block_on(async move {
         let wire = Wire::new();
-        let (tx, rx) = tokio::sync::mpsc::channel(4);
-        let mut handle = ServerHandle::new(tx);
-        let io = Box::new(wire.clone());
+        let (tx, rx) = tokio::sync::mpsc::channel(64);
+        let mut handle = Some(ServerHandle::new(tx));
+        let gate = Arc::new(Mutex::new(GateState::default()));
+        let io = Box::new(Gate { wire: wire.clone(), st: gate.clone() });
         let task = tokio::spawn(async move { run_server_session(io, map, auth, framing, decode, rx).await });
         let mut replies: Vec<String> = Vec::new();
+        let mut last_blocked: Option<usize> = None;
         settle().await;
         for fr in frames {
             if task.is_finished() {
                 break;
             }
-            if let Some(level) = fr.strip_prefix('@') {
-                let _ = handle.set_decode_level(decode_level(level)).await;
+            if let Some(cmd) = fr.strip_prefix('@') {
+                match cmd {
+                    "shutdown" => {
+                        // a session that does not drain its command queue must not wedge the harness
+                        if let Some(h) = handle.as_mut() {
+                            let _ = tokio::time::timeout(std::time::Duration::from_millis(10), h.shutdown()).await;
+                        }
+                    }
+                    "close" => {
+                        handle = None;
+                    }
+                    "block" => {
+                        gate.lock().unwrap().blocked = true;
+                    }
+                    "unblock" => {
+                        let w = {
+                            let mut g = gate.lock().unwrap();
+                            g.blocked = false;
+                            g.waker.take()
+                        };
+                        if let Some(w) = w {
+                            w.wake();
+                        }
+                        settle().await;
+                        let out = wire.take_out().concat();
+                        if let (Some(ix), false) = (last_blocked, out.is_empty()) {
+                            replies[ix] = hex(&out);
+                        }
+                        last_blocked = None;
+                        continue;
+                    }
+                    level => {
+                        if let Some(h) = handle.as_mut() {
+                            let _ = tokio::time::timeout(std::time::Duration::from_millis(10), h.set_decode_level(decode_level(level))).await;
+                        }
+                    }
+                }
                 settle().await;
                 continue;
             }
             wire.push(&unhex(&fr));
             settle().await;
             let out = wire.take_out().concat();
+            if gate.lock().unwrap().blocked {
+                last_blocked = Some(replies.len());
+            }
             replies.push(if out.is_empty() { "-".to_string() } else { hex(&out) });
         }
         let end = if task.is_finished() {
@@ -394,7 +495,7 @@ fn run_case(line: &str, decode: DecodeLevel) -> String {
             }
         } else {
             task.abort();
-            "open".to_string()
+            if gate.lock().unwrap().pending { "blocked".to_string() } else { "open".to_string() }
         };
         (replies, end)
     });
